@@ -63,6 +63,14 @@ FAMILIES = {
     actions=["EndBlock", "Delegate", "Undelegate", "SlashHook", "Native"], native=["1000000"],
     quick=dict(depth=5, blocks=3), thorough=dict(depth=7, blocks=4), sim=None,
   ),
+  "lifecycle": dict(
+    doc="validator life cycle: leaving and re-entering the bonded set and removal by x/staking once nothing is staked on it (possible while only warm-up stake is delegated to it: K13), mixed with alliance operations (C03 C05 C10 C12 C20)",
+    props=["C03", "C05", "C10", "C12", "C20"],
+    vals=["v0", "v1"], dels=["d0"], assets={"ast0": dict(weight="0.5", take="0"), "ast1": dict(weight="1", take="0", start=4)},
+    amounts=["1000"], fractions=[], gaps=[1, 3], accrue=[], unbonding=2, interval=5,
+    actions=["EndBlock", "Delegate", "Undelegate", "Claim", "Native", "Remove"], native=[],
+    quick=dict(depth=6, blocks=3), thorough=dict(depth=8, blocks=4), sim=None,
+  ),
   "gov": dict(
     doc="governance decision table: field classes x signer x asset state for create/update/delete/params, then end-of-block with the accepted parameters (C16 C17)",
     props=["C16", "C17"],
